@@ -212,8 +212,47 @@ func Guards(b *ssa.BasicBlock) []Guard {
 			s := d.Succs[k]
 			if (s == b || s.Dominates(b)) && edgeOnlyEntry(d, s) {
 				out = append(out, Guard{If: iff, Cond: iff.Cond, Polarity: k == 0})
+				out = append(out, phiGuards(iff, iff.Cond, k == 0, 0)...)
 			}
 		}
+	}
+	return out
+}
+
+// phiGuards decomposes a condition that was materialised as a value: `case a && b:` and
+// `x := a && b; if x` evaluate the conjunction into a phi [false, ..., b]; when the phi is true
+// the control came over the one edge that does not carry the constant false, so b held and so
+// did every condition guarding that edge's source block. Dually for a || b on the false edge.
+func phiGuards(iff *ssa.If, cond ssa.Value, pol bool, depth int) []Guard {
+	c, pol := StripNot(cond, pol)
+	ph, ok := c.(*ssa.Phi)
+	if !ok || depth > 4 {
+		return nil
+	}
+	idx := -1
+	for i, e := range ph.Edges {
+		if k, isK := ConstBool(e); isK && k != pol {
+			continue // this edge carries the other constant: not the way we came
+		}
+		if idx >= 0 {
+			return nil // more than one possible way
+		}
+		idx = i
+	}
+	if idx < 0 {
+		return nil
+	}
+	var out []Guard
+	e := ph.Edges[idx]
+	if _, isK := ConstBool(e); !isK {
+		out = append(out, Guard{If: iff, Cond: e, Polarity: pol})
+		out = append(out, phiGuards(iff, e, pol, depth+1)...)
+	}
+	pred := ph.Block().Preds[idx]
+	// the conditions under which the source block of that edge runs
+	out = append(out, Guards(pred)...)
+	if len(pred.Instrs) > 0 {
+		// and the branch that leads from a dominating If directly into pred is part of Guards(pred)
 	}
 	return out
 }
@@ -493,4 +532,113 @@ func ReturnValues(ret *ssa.Return) []ssa.Value {
 func ConstStringIs(v ssa.Value, s string) bool {
 	x, ok := ConstString(v)
 	return ok && x == s
+}
+
+// DependsOnDeep is DependsOn that also looks through calls of functions with a body in the
+// module (lal/naza): the values such a callee returns count as operands of the call (depth <= 2).
+// It lets a rule recognise a value whose computation was extracted into a helper.
+func DependsOnDeep(v ssa.Value, pred func(ssa.Value) bool) bool {
+	return dependsDeep(v, pred, 0)
+}
+
+func dependsDeep(v ssa.Value, pred func(ssa.Value) bool, depth int) bool {
+	found := false
+	DependsOn(v, func(x ssa.Value) bool {
+		if found {
+			return true
+		}
+		if pred(x) {
+			found = true
+			return true
+		}
+		if depth >= 2 {
+			return false
+		}
+		c, ok := x.(*ssa.Call)
+		if !ok {
+			return false
+		}
+		ce := c.Call.StaticCallee()
+		if ce == nil || ce.Blocks == nil || !(IsLal(ce) || IsNaza(ce)) {
+			return false
+		}
+		for _, ret := range ReturnsOf(ce) {
+			for _, rv := range ReturnValues(ret) {
+				if dependsDeep(rv, pred, depth+1) {
+					found = true
+					return true
+				}
+			}
+		}
+		return false
+	})
+	return found
+}
+
+// StaticGroup returns fn and the functions of its own package it calls statically, transitively
+// up to the given depth (the pieces a function was split into by helper extraction).
+func StaticGroup(fn *ssa.Function, depth int) []*ssa.Function {
+	out := []*ssa.Function{fn}
+	seen := map[*ssa.Function]bool{fn: true}
+	frontier := []*ssa.Function{fn}
+	for d := 0; d < depth; d++ {
+		var next []*ssa.Function
+		for _, f := range frontier {
+			for _, g := range WithAnons(f) {
+				for _, ci := range AllCalls(g) {
+					ce := ci.Common().StaticCallee()
+					if ce == nil || ce.Blocks == nil || seen[ce] || ce.Pkg != fn.Pkg {
+						continue
+					}
+					seen[ce] = true
+					out = append(out, ce)
+					next = append(next, ce)
+				}
+			}
+		}
+		frontier = next
+	}
+	return out
+}
+
+// CopyOf reports whether v is (possibly through phis, conversions and local cells) a copy of a
+// value satisfying pred: unlike DependsOn it does not pass through calls or arithmetic.
+func CopyOf(v ssa.Value, pred func(ssa.Value) bool) bool {
+	seen := map[ssa.Value]bool{}
+	var rec func(ssa.Value, int) bool
+	rec = func(x ssa.Value, d int) bool {
+		if x == nil || seen[x] || d > 50 {
+			return false
+		}
+		seen[x] = true
+		if pred(x) {
+			return true
+		}
+		switch y := x.(type) {
+		case *ssa.Phi:
+			for _, e := range y.Edges {
+				if rec(e, d+1) {
+					return true
+				}
+			}
+		case *ssa.Convert:
+			return rec(y.X, d+1)
+		case *ssa.ChangeType:
+			return rec(y.X, d+1)
+		case *ssa.UnOp:
+			if y.Op == token.MUL {
+				if a, ok := y.X.(*ssa.Alloc); ok {
+					if refs := a.Referrers(); refs != nil {
+						for _, r := range *refs {
+							if st, ok := r.(*ssa.Store); ok && st.Addr == a && rec(st.Val, d+1) {
+								return true
+							}
+						}
+					}
+				}
+			}
+		}
+		return false
+	}
+	return rec(v, 0)
 }
